@@ -6,7 +6,7 @@ are sent to the engine: no error may carry a validation-rule tag."""
 import common, genrun
 from checks import c01, c07
 
-EXEC_CFGS = ["MC_exec_frag.cfg", "MC_exec_fragq.cfg", "MC_exec_fragvar.cfg", "MC_exec_ops.cfg", "MC_exec_dirs.cfg", "MC_exec_args.cfg", "MC_exec_abstract.cfg"]
+EXEC_CFGS = ["MC_exec_frag.cfg", "MC_exec_fragq.cfg", "MC_exec_fragvar.cfg", "MC_exec_ops.cfg", "MC_exec_ops2.cfg", "MC_exec_dirs.cfg", "MC_exec_args.cfg", "MC_exec_abstract.cfg"]
 VALID_CFGS = ["MC_valid_1.cfg", "MC_valid_2.cfg", "MC_valid_3.cfg", "MC_valid_4.cfg"]
 
 
